@@ -197,6 +197,10 @@ func appMsg(code, app uint32, req bool, hbh uint32) []byte {
 }
 
 func buildDWR(hbh, e2e uint32, withOSID bool, oh, or string) []byte {
+	return buildDWRv(hbh, e2e, withOSID, 77, oh, or)
+}
+
+func buildDWRv(hbh, e2e uint32, withOSID bool, osid uint32, oh, or string) []byte {
 	m := diam.NewRequest(diam.DeviceWatchdog, 0, dict.Default)
 	m.Header.HopByHopID, m.Header.EndToEndID = hbh, e2e
 	if oh != "" {
@@ -206,7 +210,7 @@ func buildDWR(hbh, e2e uint32, withOSID bool, oh, or string) []byte {
 		m.NewAVP(avp.OriginRealm, avp.Mbit, 0, datatype.DiameterIdentity(or))
 	}
 	if withOSID {
-		m.NewAVP(avp.OriginStateID, avp.Mbit, 0, datatype.Unsigned32(77))
+		m.NewAVP(avp.OriginStateID, avp.Mbit, 0, datatype.Unsigned32(osid))
 	}
 	b, _ := m.Serialize()
 	return b
